@@ -287,7 +287,11 @@ def run_unit(unit, repo='/repo', outdir=None, solver='z3', canary=True, timeout=
             'woven': f['woven'], 'clauses': clauses, 'native_sites': native,
             'success': succ.get(f['gen_fn']),
         })
-    res['obligations'] = sum(len(f['clauses']) + f['native_sites'] for f in res['functions'])
+    in_fn = set()
+    for f in meta['functions']:
+        in_fn.update(range(f['gen_lines'][0], f['gen_lines'][1] + 1))
+    res['prelude_clauses'] = [lab for ln, lab in sorted(meta['labels'].items()) if ln not in in_fn]
+    res['obligations'] = sum(len(f['clauses']) + f['native_sites'] for f in res['functions']) + len(res['prelude_clauses'])
     res['discharged'] = max(0, res['obligations'] - len(res['failed']))
 
     if undecided or (rc != 0 and not res['failed']) or vr.get('encountered-vir-error'):
